@@ -43,6 +43,56 @@ def gen_cases(rng, tier):
     return out
 
 
+def _recs(W, name):
+    return ",".join("%s@%s" % (t, tm) for t, tm in zip(W["logs"][name][2], W.get("logtimes", {}).get(name, [])))
+
+
+def model_input(cases, impl):
+    """for every successful sync step and every log known to both sides before it: the two logs as observed"""
+    out = []
+    for c in cases:
+        cid = c.split()[1]
+        steps, defs = acct.parse(impl.get(cid, []))
+        n = 0
+        for st in sorted(steps):
+            S = steps[st]
+            op = S["op"] or ""
+            if not (op.startswith("s") and S["res"] == "ok") or st - 1 not in steps:
+                continue
+            P = steps[st - 1]["who"]
+            d = "D" + op[1:]
+            if d not in P or "SRV" not in P:
+                continue
+            for name, (ln, root, toks) in sorted(P[d]["logs"].items()):
+                if name not in P["SRV"]["logs"] or not toks or not P["SRV"]["logs"][name][2]:
+                    continue
+                out.append("%s %s %d %s D=%s S=%s" % (SUB, cid, st, name, _recs(P[d], name), _recs(P["SRV"], name)))
+                n += 1
+        if n == 0:
+            out.append("%s %s" % (SUB, cid))
+    return out
+
+
+def impl_projection(obs):
+    steps, defs = acct.parse(obs)
+    out = []
+    for st in sorted(steps):
+        S = steps[st]
+        op = S["op"] or ""
+        if not (op.startswith("s") and S["res"] == "ok") or st - 1 not in steps:
+            continue
+        P = steps[st - 1]["who"]; Q = S["who"]
+        d = "D" + op[1:]
+        if d not in P or "SRV" not in P or d not in Q or "SRV" not in Q:
+            continue
+        for name, (ln, root, toks) in sorted(P[d]["logs"].items()):
+            if name not in P["SRV"]["logs"] or not toks or not P["SRV"]["logs"][name][2]:
+                continue
+            a = Q[d]["logs"].get(name, (0, "-", []))[2]; b = Q["SRV"]["logs"].get(name, (0, "-", []))[2]
+            out.append("%d %s dev=%s srv=%s" % (st, name, ",".join(a), ",".join(b)))
+    return out
+
+
 def log_sig(W):
     return {k: (v[0], v[1]) for k, v in W["logs"].items()}
 
